@@ -460,9 +460,12 @@ def execute(trace, env=None):
     # memoised buffers) cannot pollute reference and subject alike.
     obs_op = trace['observed']
     pre = None
+    fresh_loaded = None
     try:
         fresh = build(world, s)
         pre = observe_calc(world, P, s, fresh, obs_op)
+        fresh_loaded = [i for i, c in enumerate(world['cells'])
+                        if P.rect_id(*cell_rect(c)) in fresh.cells]
         del fresh
     except Exception:
         pre = None
@@ -494,8 +497,16 @@ def execute(trace, env=None):
     # (model.cells says which cells those are); the others are not observed
     present = None
     if s['kind'] == 'file' and s.get('mode') == 'root':
+        # (finishing again may pull in further cells of lazily loaded books;
+        # only cells that the fresh model holds as well are compared - and
+        # none of those may have been lost)
         present = [i for i, c in enumerate(world['cells'])
                    if P.rect_id(*cell_rect(c)) in m.cells]
+        for i in fresh_loaded or []:
+            if i not in present:
+                fail('C07.fresh', 'cell %d is loaded in a fresh model but '
+                     'gone after the history' % i, cell=i)
+        present = [i for i in present if i in (fresh_loaded or [])]
         obs = Observation(world, s['placement'], sol, list(m.cells))
     got = obs.normal()
     # --- C07.fresh: same inputs on a fresh model of the same world
